@@ -15,7 +15,7 @@ for s in "$@"; do
   if [ "$id" = SKIP ]; then echo "$s superseded by a later repo fix (see meta.json): skipped"; continue; fi
   git -C $WT checkout -q -- . ; git -C $WT clean -fdq -- plasTeX
   if ! git -C $WT apply $d/patch.diff 2>/dev/null; then echo "$s $id patch does not apply to $(git -C /repo rev-parse --short HEAD)"; miss=$((miss+1)); continue; fi
-  out=$(cd $HERE && VP_REPO=$WT ./check $id --no-evidence 2>&1); rc=$?
+  out=$(cd $HERE && VP_STOP_EARLY=1 VP_REPO=$WT ./check $id --no-evidence 2>&1); rc=$?
   n=$((n+1))
   if [ $rc -eq 1 ] && echo "$out" | grep -aq "^VIOLATION property=$id"; then echo "$s $id caught"; else echo "$s $id NOT CAUGHT (rc=$rc)"; miss=$((miss+1)); fi
 done
